@@ -342,7 +342,7 @@ pub fn construct<'a, V: Visit<'a>>(
             // (pt,min) outside the family never leaves the generators; fall back to <255,4>
             let mut vv = Some(v);
             let r = crate::with_custom!(*pt, *min, C, B, {
-                let b: B<'a> = B { count: *count, body: &body[..], padding: *padding };
+                let b: B<'a> = B { count: *count, body: &body[..], padding: *padding, report_some_zero: how.owned };
                 vv.take().unwrap().visit(b)
             });
             match r {
@@ -351,6 +351,7 @@ pub fn construct<'a, V: Visit<'a>>(
                     count: *count,
                     body: &body[..],
                     padding: *padding,
+                    report_some_zero: how.owned,
                 }),
             }
         }
